@@ -495,7 +495,7 @@ func runOpSem(c *Ctx, r *Reporter) {
 	}
 	type vmTerm struct {
 		term, wrap, pos string
-		npop      int
+		npop            int
 	}
 	vmTerms := map[string]*vmTerm{}
 	for k, head := range vmCases {
@@ -707,4 +707,189 @@ func checkOpReturns(p *Program, r *Reporter, construct string, head *ssa.BasicBl
 	}
 }
 
-var _ = types.Typ
+
+// R-VMSTACK: a push never writes beyond the operand stack.
+//
+// The VM turns a program that needs too much stack into ErrStackOverflow instead of crashing the host. That rests on
+// two sites that must agree: the bound tested in push and the size the stack is allocated with. So: every store into
+// vm.stack indexed by vm.sp in push is dominated by the false edge of `vm.sp >= B` where B is either a constant that
+// every allocation of the stack uses as its length, or len(vm.stack) itself with no reallocation of the stack between
+// the test and the store.
+var ruleVMStack = &Rule{
+	ID: "R-VMSTACK",
+	Doc: "the write position of (*VM).push is tested against the size the operand stack is allocated with (the same constant in the test and in every allocation, or len(vm.stack) " +
+		"with no reallocation between test and store) on every path to the store",
+	Floor: 2,
+	Run:   runVMStack,
+}
+
+func runVMStack(c *Ctx, r *Reporter) {
+	p, pkg := bytecodePkg(c, r)
+	if pkg == nil {
+		return
+	}
+	pushFd := FindFunc(pkg, "(*VM).push")
+	if pushFd == nil {
+		r.Undecided("(*VM).push not found")
+		return
+	}
+	isVMField := func(v ssa.Value, field string) bool {
+		u, ok := v.(*ssa.UnOp)
+		if !ok || u.Op != token.MUL {
+			return false
+		}
+		fa, ok := u.X.(*ssa.FieldAddr)
+		if !ok {
+			return false
+		}
+		owner, name := fieldAddrInfo(fa)
+		return owner != nil && owner.Obj().Name() == "VM" && name == field
+	}
+	// allocations of the stack
+	allocLens := map[string]bool{}
+	var reallocFns []*ssa.Function
+	nAlloc := 0
+	for _, fn := range ssaFuncsOf(p, pkg) {
+		for _, b := range fn.Blocks {
+			for _, ins := range b.Instrs {
+				st, ok := ins.(*ssa.Store)
+				if !ok {
+					continue
+				}
+				fa, ok := st.Addr.(*ssa.FieldAddr)
+				if !ok {
+					continue
+				}
+				owner, name := fieldAddrInfo(fa)
+				if owner == nil || owner.Obj().Name() != "VM" || name != "stack" {
+					continue
+				}
+				nAlloc++
+				construct := fmt.Sprintf("%s#stack-alloc[%d]", ssaQName(fn), nAlloc)
+				if a, ok := fa.X.(*ssa.Alloc); !ok || !a.Heap {
+					reallocFns = append(reallocFns, fn)
+				}
+				// make with a constant length is lowered to a slice of a new array
+				if sl, ok := st.Val.(*ssa.Slice); ok && sl.Low == nil {
+					if a, ok := sl.X.(*ssa.Alloc); ok {
+						if at, ok := a.Type().Underlying().(*types.Pointer).Elem().Underlying().(*types.Array); ok {
+							ls := fmt.Sprint(at.Len())
+							if sl.High != nil {
+								hk, isConst := sl.High.(*ssa.Const)
+								if !isConst || hk.Value == nil {
+									allocLens["?"] = true
+									r.Ok(construct, p.Rel(instrPos(st)), "the operand stack is allocated with a computed length: push has to test against len(vm.stack)")
+									continue
+								}
+								ls = hk.Value.ExactString()
+							}
+							allocLens[ls] = true
+							r.Ok(construct, p.Rel(instrPos(st)), "the operand stack is allocated with the constant length "+ls)
+							continue
+						}
+					}
+				}
+				ms, ok := st.Val.(*ssa.MakeSlice)
+				if !ok {
+					allocLens["?"] = true
+					r.Ok(construct, p.Rel(instrPos(st)), "the operand stack is assigned a slice of unknown length: push has to test against len(vm.stack)")
+					continue
+				}
+				if k, ok := ms.Len.(*ssa.Const); ok && k.Value != nil {
+					allocLens[k.Value.ExactString()] = true
+					r.Ok(construct, p.Rel(instrPos(st)), "the operand stack is allocated with the constant length "+k.Value.ExactString())
+				} else {
+					allocLens["?"] = true
+					r.Ok(construct, p.Rel(instrPos(st)), "the operand stack is allocated with a computed length: push has to test against len(vm.stack)")
+				}
+			}
+		}
+	}
+	if nAlloc == 0 {
+		r.Undecided("no allocation of VM.stack found")
+		return
+	}
+	sf := p.SSAFunc(pushFd.Obj)
+	n := 0
+	for _, b := range sf.Blocks {
+		for _, ins := range b.Instrs {
+			st, ok := ins.(*ssa.Store)
+			if !ok {
+				continue
+			}
+			ia, ok := st.Addr.(*ssa.IndexAddr)
+			if !ok || !isVMField(ia.X, "stack") {
+				continue
+			}
+			n++
+			construct := fmt.Sprintf("%s#bounded-store[%d]", pushFd.QName(), n)
+			pos := p.Rel(instrPos(st))
+			if !isVMField(ia.Index, "sp") {
+				r.Viol(construct, pos, "push stores at a position other than vm.sp")
+				continue
+			}
+			good, why := false, "the store into vm.stack[vm.sp] is not dominated by the false edge of a test `vm.sp >= bound`"
+			for d := b; d != nil; d = d.Idom() {
+				id := d.Idom()
+				if id == nil || len(id.Instrs) == 0 {
+					continue
+				}
+				ifi, ok := id.Instrs[len(id.Instrs)-1].(*ssa.If)
+				if !ok {
+					continue
+				}
+				bo, ok := ifi.Cond.(*ssa.BinOp)
+				if !ok || !isVMField(bo.X, "sp") {
+					continue
+				}
+				inEdge := -1
+				switch bo.Op {
+				case token.GEQ:
+					inEdge = 1
+				case token.LSS:
+					inEdge = 0
+				}
+				if inEdge < 0 || !edgeDominates(id, inEdge, b) {
+					continue
+				}
+				switch y := bo.Y.(type) {
+				case *ssa.Const:
+					if y.Value != nil && len(allocLens) == 1 && allocLens[y.Value.ExactString()] {
+						good = true
+					} else {
+						why = fmt.Sprintf("push tests vm.sp against %s, but the operand stack is not always allocated with exactly that length: a push below the tested bound can lie beyond the stack (host crash instead of ErrStackOverflow)", y.Value)
+					}
+				case *ssa.Call:
+					if bi, ok := y.Call.Value.(*ssa.Builtin); ok && bi.Name() == "len" && len(y.Call.Args) == 1 && isVMField(y.Call.Args[0], "stack") {
+						// no reallocation between the test and the store: no path from the test to the store passes a call of a function that stores vm.stack
+						realloc := false
+						for _, blk := range sf.Blocks {
+							succ := id.Succs[inEdge] // only what lies behind the edge on which the position was found in range
+							if !((succ == blk || succ.Dominates(blk)) && (blk == b || reachesBlock(blk, b))) {
+								continue
+							}
+							for _, i2 := range blk.Instrs {
+								if c2, ok := i2.(*ssa.Call); ok {
+									for _, rf := range reallocFns {
+										if c2.Call.StaticCallee() == rf {
+											realloc = true
+										}
+									}
+								}
+							}
+						}
+						if !realloc {
+							good = true
+						} else {
+							why = "push tests vm.sp against len(vm.stack), but the stack can be reallocated between the test and the store"
+						}
+					}
+				}
+			}
+			r.Check(good, construct, pos, "the store position is below the allocated size of the stack on every path", why)
+		}
+	}
+	if n == 0 {
+		r.Undecided("(*VM).push does not store into vm.stack")
+	}
+}
